@@ -52,7 +52,7 @@ def numeric_menu(spec, field, level):
     if edges:
         if level == "core":
             pick = edges if len(edges) <= 3 else [edges[0], edges[len(edges) // 2], edges[-1]]
-            vals += pick + [edges[0] - 1.0, NAN, INF]
+            vals += pick + [edges[0] - 1.0, INF, NAN]  # NaN last: truncation keeps the ends of a menu
         else:
             vals += edges
             vals += [(a + b) / 2.0 for a, b in zip(edges[:-1], edges[1:])]
@@ -87,7 +87,7 @@ def field_menu(spec, field, level):
         return ["p", "q"] if level == "core" else ["p", "q", ""]
     if field == "v":
         if level == "core":
-            return [(0.0, 1.0), (1.0, 0.0)]
+            return [(0.0, 1.0), (NAN, 1.0), (1.0, 0.0)]
         return [(0.0, 1.0), (1.0, 0.0), (NAN, 1.0), (INF, -INF)]
     raise ValueError(field)
 
@@ -128,11 +128,19 @@ def records(spec, level="core", cap=None):
                 if size() <= cap:
                     break
                 menus[f] = field_menu(spec, f, "core")
-        while size() > cap:
-            f = max(menus, key=lambda f: len(menus[f]))
-            if len(menus[f]) <= 2:
-                break
-            menus[f] = menus[f][:-1]
+        def shrink(floor):
+            while size() > cap:
+                cands = [f for f in menus if len(menus[f]) > floor.get(f, 2)]
+                if not cands:
+                    return
+                f = max(cands, key=lambda f: len(menus[f]))
+                # drop from the middle: the ends of a menu hold its extreme classes (lowest edge ... +inf, NaN)
+                m = list(menus[f])
+                del m[len(m) // 2]
+                menus[f] = m
+
+        shrink({"x": 3})
+        shrink({})
     out = []
     for combo in itertools.product(*[menus[f] for f in fs]):
         r = dict(DEFAULTS)
